@@ -418,7 +418,17 @@ func (c *evalCtx) field(x tval, name string) (tval, error) {
 		return tval{t: LocAdd(x.t, IntLit(int64(w.fieldOffset(s, idx)))), ty: ft, addr: true}, nil
 	}
 	cl := fr.fieldCell(x.ty, x.t, idx)
-	return tval{t: fr.loadLeaf(st, cl), ty: ft}, nil
+	lv := fr.loadLeaf(st, cl)
+	if fr.u.w.sh.nonNilField[cl.key] && !strings.Contains(lv.S, "!q") && !strings.Contains(lv.S, "!ax") && !strings.Contains(lv.S, "!lg") {
+		// declared type invariant: the field is never nil (only stated for ground terms)
+		switch lv.Sort {
+		case SLoc:
+			fr.u.assume(True, Neq(lv, NilLoc))
+		case SIface:
+			fr.u.assume(True, Neq(ITag(lv), IntLit(0)))
+		}
+	}
+	return tval{t: lv, ty: ft}, nil
 }
 
 func (c *evalCtx) index(x, i tval) (tval, error) {
